@@ -92,10 +92,10 @@ func checkC04(c *km.Ctx) {
 	r.NotDecided = []string{"cryptographic strength / parser robustness of go-jose", "byte-level corruption handling"}
 	r.Assume = []string{"go-jose verifies signatures with the supplied keys and refuses algorithms outside the supplied list", "go/types + go/ssa model the source faithfully"}
 
-	r.Rule("R-C04-1", "verification is never skipped: no unverified-claims API is called, Claims() is called only inside JWTClaims with published keymaster keys, every token is parsed with the keymaster verifier algorithm list, which contains only asymmetric algorithms", 12)
-	r.Rule("R-C04-2", "each consumer honours a token only after comparing its kind discriminator with its own constant; no producer of another kind emits a token that satisfies it", 10)
-	r.Rule("R-C04-3", "session, CLI and storage consumers require issuer == this server, audience[0] == this server and not-before <= now; the access-token consumer requires the issuer", 5)
-	r.Rule("R-C04-4", "the signed expiry is compared with the clock on every path from verification to a point where the token is honoured", 6)
+	r.Rule("R-C04-1", "verification is never skipped: no unverified-claims API is called, Claims() is called only inside JWTClaims with published keymaster keys, every token is parsed with the keymaster verifier algorithm list, which contains only asymmetric algorithms", 6)
+	r.Rule("R-C04-2", "each consumer honours a token only after comparing its kind discriminator with its own constant; no producer of another kind emits a token that satisfies it", 5)
+	r.Rule("R-C04-3", "session, CLI and storage consumers require issuer == this server, audience[0] == this server and not-before <= now; the access-token consumer requires the issuer", 2)
+	r.Rule("R-C04-4", "the signed expiry is compared with the clock on every path from verification to a point where the token is honoured", 5)
 
 	// ---------- R-C04-1
 	nClaims, nUnsafe, nControl := 0, 0, 0
@@ -199,8 +199,8 @@ func checkC04(c *km.Ctx) {
 	checkVerifierAlgos(c, s)
 
 	sort.Slice(consumers, func(i, j int) bool { return posOf(c, consumers[i].call) < posOf(c, consumers[j].call) })
-	if len(consumers) < 5 {
-		r.AnchorLost("R-C04-2", sprintf("JWTClaims consumers (found %d, expected 5)", len(consumers)))
+	if len(consumers) < 3 {
+		r.AnchorLost("R-C04-2", sprintf("JWTClaims consumers (found %d, expected at least 3)", len(consumers)))
 		return
 	}
 
@@ -284,8 +284,8 @@ func checkC04(c *km.Ctx) {
 			producers = append(producers, p)
 		}
 	}
-	if len(producers) < 6 {
-		r.AnchorLost("R-C04-2", sprintf("token producers (found %d, expected >= 6)", len(producers)))
+	if len(producers) < 3 {
+		r.AnchorLost("R-C04-2", sprintf("token producers (found %d, expected at least 3)", len(producers)))
 	}
 
 	// ---------- per consumer
